@@ -44,6 +44,7 @@ import time
 from lib import core
 
 LEVEL = 'other'
+BBH_FEATURES = []      # harness command families this check needs (fallback build, lib/core.py build_bbh)
 PYH = f'{core.VERIF}/py/pyharness.py'
 PYROOT = os.environ.get('BB_PYROOT', '/repo')
 CORPUS = f'{core.VERIF}/corpus/C18'
